@@ -17,6 +17,7 @@ pub fn is_nonlocation_debug(opcode: spirv::Op) -> bool {
             | spirv::Op::Name
             | spirv::Op::MemberName
             | spirv::Op::String
+            | spirv::Op::ModuleProcessed
     )
 }
 
@@ -34,6 +35,7 @@ pub fn is_annotation(opcode: spirv::Op) -> bool {
             | spirv::Op::DecorationGroup
             | spirv::Op::GroupDecorate
             | spirv::Op::GroupMemberDecorate
+            | spirv::Op::DecorateId
             | spirv::Op::DecorateString
             | spirv::Op::MemberDecorateStringGOOGLE
     )
